@@ -54,9 +54,18 @@ def leaf_level(text: str) -> int:
 # non-boolean values: VT are truthy for Python's `if`, VF falsy (the interpreter's `?:` looks at that before it rejects them)
 VT = [("1", "int:1"), ("'s'", 'string:"s"'), ("2u", "uint:2"),
       ("1.5", "double:4609434218613702656"), ("'true'", 'string:"true"'), ("b'1'", "bytes:31"),
-      ("{'a': 1}", 'map:{string:"a"=>int:1}'), ("[0]", "list:[int:0]"), ("'false'", 'string:"false"'), ("'f'", 'string:"f"')]
+      ("{'a': 1}", 'map:{string:"a"=>int:1}'), ("[0]", "list:[int:0]"), ("'false'", 'string:"false"'), ("'f'", 'string:"f"'),
+      # round 3 (append only): values that are not plain data for Python -- CEL TYPE values are Python classes (callable,
+      # constructible, `isinstance(v, type)`), timestamps/durations are datetime objects -- so that code which inspects an
+      # operand / a selected branch by duck typing (callable(), hasattr, bool(), iter()) meets every kind of them
+      ("int", "type:IntType"), ("type('a')", "type:StringType"), ("list", "type:ListType"), ("type(null)", "type:NoneType"),
+      ("type(type(1))", "type:TypeType"), ("map", "type:MapType"), ("bool", "type:BoolType"), ("type(1.5)", "type:DoubleType"),
+      ("timestamp('2020-01-02T03:04:05Z')", "timestamp:2020-01-02T03:04:05.000000Z"), ("duration('1s')", "duration:1000000"),
+      ("[int, type('a')]", "list:[type:IntType,type:StringType]"), ("{'t': timestamp}", 'map:{string:"t"=>type:TimestampType}')]
 VF = [("0", "int:0"), ("''", 'string:""'), ("[]", "list:[]"),
-      ("null", "null"), ("0.0", "double:0"), ("0u", "uint:0"), ("{}", "map:{}"), ("b''", "bytes:")]
+      ("null", "null"), ("0.0", "double:0"), ("0u", "uint:0"), ("{}", "map:{}"), ("b''", "bytes:"),
+      ("duration('0s')", "duration:0")]       # round 3: timedelta(0) is falsy
+N_VT_R2 = 10                                   # VT[N_VT_R2:] are the round-3 kinds
 
 
 # trees: ("lit", cls, textindex) | ("and", a, b) | ("or", a, b) | ("not", a) | ("cond", c, x, y) | ("all", [..]) | ("exists", [..])
@@ -99,16 +108,44 @@ def gen_var_tree(rng: random.Random, size: int, nv: int) -> Any:
     return ("cond", gen_var_tree(rng, a, nv), gen_var_tree(rng, b, nv), gen_var_tree(rng, max(1, size - a - b), nv))
 
 
-N_FN_VALUES = 8
+N_FN_VALUES = 14
 
 
 def fn_values():
     """(truthy, falsy) non-boolean CEL values per kind index `vk` of a "fn" case"""
     from celpy import celtypes as ct
+    from celpy import evaluation as ev
     return [(ct.IntType(1), ct.IntType(0)), (ct.UintType(2), ct.UintType(0)), (ct.DoubleType(1.5), ct.DoubleType(0.0)),
             (ct.StringType("true"), ct.StringType("")), (ct.BytesType(b"1"), ct.BytesType(b"")),
             (ct.ListType([ct.IntType(0)]), ct.ListType([])), (ct.MapType({ct.StringType("a"): ct.IntType(1)}), ct.MapType()),
-            (ct.StringType("false"), None)]
+            (ct.StringType("false"), None),
+            # round 3: the values `int`, `list`, `type(null)`, `type(type(1))` (Python classes: callable, constructible
+            # without arguments or not), the value of a function name (`size`), a timestamp and a (falsy) zero duration
+            (ct.IntType, ct.DurationType("0s")), (ct.ListType, ct.IntType(0)), (type(None), ct.MapType()),
+            (ct.TypeType, ct.ListType([])), (ev.function_size, ct.BytesType(b"")),
+            (ct.TimestampType("2020-01-02T03:04:05Z"), ct.DurationType("0s"))]
+
+
+# "branch" cases: the sentence "`c ? x : y` yields exactly the outcome of the selected branch" taken literally -- the
+# outcome of the conditional is compared with the outcome of the branch expression evaluated ALONE on the same runner.
+# The pool has every kind of outcome a CEL expression can have (append only: corpus cases index into it).
+BRANCH_TEXT = [
+    "1", "-9223372036854775807 - 1", "18446744073709551615u", "2.5", "0.0 / 0.0 == 0.0 / 0.0", "'a'", "''", "b'x'", "null",
+    "true", "false", "[1, 2]", "[]", "{'k': 1}", "{}", "[[1], {'a': [2u, null]}]", "{1: {'b': [true]}}",
+    "1/0", "nosuch", "{}.a", "[1][5]", "1 + 'a'",
+    "timestamp('2020-01-02T03:04:05Z')", "duration('1h30m')", "duration('0s')",
+    "timestamp('2020-01-02T03:04:05Z') - timestamp('2020-01-01T00:00:00Z')",
+    # type values, written as names and computed
+    "int", "uint", "double", "bool", "string", "bytes", "list", "map", "null_type", "type", "timestamp", "duration",
+    "type(1)", "type('a')", "type(null)", "type([1])", "type({})", "type(2.5)", "type(true)", "type(type(1))",
+    "type(timestamp('2020-01-02T03:04:05Z'))", "dyn(int)", "[int][0]", "{'a': list}.a",
+    # containers of type values, values computed by macros / functions
+    "[int, string, type(null)]", "{'t': map, 'u': [type]}", "[1, 2, 3].map(x, type(x))", "[1, 2, 3].filter(x, x > 1)",
+    "[1, 2].map(x, x * 2)", "size('abc')", "'abc'.size()", "dyn(1)", "int('12')", "string(12)", "[1, 2][1]", "{'a': 'b'}.a",
+    "1 == 1 ? int : string", "(false ? 1 : list)",
+    # the value of a function name
+    "size", "matches", "getDate",
+]
 
 
 def all_trees(depth: int, leaves: List[Any]) -> List[Any]:
@@ -304,6 +341,22 @@ def chain(op: str, leaves: List[Any]) -> Any:
     return t
 
 
+def branch_src(c: Dict[str, Any]):
+    """(conditional, selected branch alone) of a "branch" case.  shape "sel": `T ? b : o` / `F ? o : b`; "nest": selected
+    through an unparenthesised right-nested conditional; "eq": the conditional as an operand (`(c ? b : o) == b`, compared
+    with `b == b`)"""
+    b, o = BRANCH_TEXT[c["b"]], BRANCH_TEXT[c["o"]]
+    T, F = LEAF_TEXT["t"][c["c"]], LEAF_TEXT["f"][c["c"]]
+    shape = c.get("shape", "sel")
+    if shape == "nest":
+        cond = f"{F} ? ({o}) : {T} ? ({b}) : ({o})" if c["side"] == 0 else f"{T} ? ({F} ? ({o}) : ({b})) : ({o})"
+    else:
+        cond = f"{T} ? ({b}) : ({o})" if c["side"] == 0 else f"{F} ? ({o}) : ({b})"
+    if shape == "eq":
+        return f"({cond}) == ({b})", f"({b}) == ({b})"
+    return cond, b
+
+
 def size_of(t) -> int:
     if t[0] == "lit":
         return 1
@@ -324,10 +377,10 @@ class C02(Prop):
     gen_names = ["Logic"]
     trusted = ["sub-expressions realising the leaf classes (true/false/error/non-boolean) evaluate to that class in both runners",
                "lark parsing of the generated text"]
-    rule = ("random LExpr trees (size<=7; leaves t/f/e with 12-35 concrete realisations each, 15% non-boolean leaves of 10+8 value kinds) rendered to CEL "
+    rule = ("random LExpr trees (size<=7; leaves t/f/e with 12-35 concrete realisations each, 15% non-boolean leaves of 22+9 value kinds incl. type values, timestamps, durations) rendered to CEL "
             "fully parenthesised or with the minimal parentheses of the grammar (flat && / || chains, right-nested ?:, !!x), all/exists as index ladder or over "
             "element values; every 3-operand chain over the five classes, long chains (<=60 operands) and lists (<=40 elements); programs over variables compiled "
-            "once and evaluated under 3-8 activations; both runners; all 5x5 / 5^3 operand tuples through celtypes.logical_* with 8 kinds of non-boolean value; "
+            "once and evaluated under 3-8 activations; both runners; all 5x5 / 5^3 operand tuples through celtypes.logical_* with 14 kinds of non-boolean value (incl. classes and a function); `c ? x : y` against the selected branch evaluated alone for a pool of ~70 branch expressions of every outcome kind; "
             "thorough adds every and/or/not tree of depth<=2 over {t,f,e}. non-trivial = distinct tree containing at least one error or non-boolean leaf")
 
     def generate(self, rng, tier):
@@ -432,8 +485,19 @@ class C02(Prop):
                     for t in (("cond", v, leaf("t"), leaf("f")), ("cond", v, leaf("e"), leaf("e")),
                               ("and", leaf("f"), v), ("and", v, leaf("f")), ("or", leaf("t"), v), ("or", v, leaf("t")),
                               ("and", v, ("lit", "vt", 0)), ("or", ("lit", "vf", 0), v), ("not", v),
-                              ("or", ("and", v, v), leaf("t")), ("and", ("cond", v, leaf("t"), leaf("t")), leaf("f"))):
+                              ("or", ("and", v, v), leaf("t")), ("and", ("cond", v, leaf("t"), leaf("t")), leaf("f")),
+                              # round 3: ... and as the SELECTED branch (the outcome must be exactly that value), the other
+                              # branch an error / another non-boolean; selected through a nested conditional
+                              ("cond", leaf("t"), v, leaf("e")), ("cond", leaf("f"), leaf("e"), v),
+                              ("cond", leaf("f"), ("lit", "vf", 0), ("cond", leaf("t"), v, ("lit", "vt", 0)))):
                         both(t, vi, fi, rng.choice([None, "min"]))
+        # --- round 3: the selected branch of every outcome kind, compared with the branch evaluated alone ---
+        for bi in range(len(BRANCH_TEXT)):
+            oi = rng.randrange(len(BRANCH_TEXT))
+            for r in ("I", "C"):
+                for shape in (["sel"] if quick and bi % 3 else ["sel", "nest", "eq"]):
+                    cases.append({"kind": "branch", "runner": r, "b": bi, "o": oi, "side": rng.randrange(2), "shape": shape,
+                                  "c": rng.randrange(min(len(LEAF_TEXT["t"]), len(LEAF_TEXT["f"])))})
         # --- long lists for all/exists (absorbing element early / late / absent), both macro renderings ---
         for i in range(24 if quick else 400):
             k = rng.choice(["all", "exists"])
@@ -508,6 +572,9 @@ class C02(Prop):
                 return "raise " + type(ex).__name__
         if c["kind"] == "prog":
             return self._impl_prog(c)
+        if c["kind"] == "branch":
+            src, alone = branch_src(c)
+            return celrun.run(src, c["runner"]) + " <> " + celrun.run(alone, c["runner"])
         return celrun.run(case_src(c), c["runner"])
 
     def _impl_prog(self, c):
@@ -535,7 +602,7 @@ class C02(Prop):
     def model_line(self, c):
         if c["kind"] == "fn":
             return f"fn {c['fn']} " + " ".join(c["args"])
-        if c["kind"] == "prog":
+        if c["kind"] in ("prog", "branch"):
             return None
         return f"{c['runner']} {to_model(_tuplify(c['tree']))}"
 
@@ -574,6 +641,17 @@ class C02(Prop):
                         return f"logical_condition({a}) gave {out}; expected the selected branch {exp}"
                 elif not out.startswith("raise TypeError"):
                     return f"logical_condition with condition {a[0]} gave {out}; expected an error"
+            return None
+        if c["kind"] == "branch":
+            src, alone = branch_src(c)
+            got, _, ref = out.partition(" <> ")
+            if got.startswith("EXC ") or got == "parse-error":
+                return f"{got} from {src!r} on runner {c['runner']}" if not ref.startswith("EXC ") and ref != "parse-error" else None
+            if ref.startswith("EXC ") or ref == "parse-error":
+                return None                  # the branch on its own is outside the property (no outcome to compare with)
+            if got != ref:
+                return (f"runner {c['runner']}: {src!r} gave {got}, but the selected branch {alone!r} evaluated alone gives {ref}; "
+                        f"`c ? x : y` must yield exactly the outcome of the selected branch")
             return None
         tree = _tuplify(c["tree"])
         if c["kind"] == "prog":
@@ -629,6 +707,8 @@ class C02(Prop):
             return any(a not in ("t", "f") for a in c["args"])
         if c["kind"] == "prog":
             return any(a not in ("t", "f") for act in c["acts"] for a in act)
+        if c["kind"] == "branch":
+            return not out.startswith(("bool:", "EXC", "parse-error"))
         return "e" in to_model(_tuplify(c["tree"])).split() or "vt" in to_model(_tuplify(c["tree"])).split()
 
 
